@@ -1,7 +1,7 @@
 INIT Init
 NEXT Next
 CONSTANTS
-  Shapes <- cShapesNoSens
+  Shapes <- cShapes
   SymNames <- cSyms
   NameSeq <- cNoSeq
   SensorNames <- cSensors
@@ -20,9 +20,9 @@ CONSTANTS
   PDiag <- cPDiag
   PVec <- cPVec
   ZDeltas <- cZDeltas
-  Acts <- cActsPredict
-  MinSteps = 3
-  MaxSteps = 5
+  Acts <- cActsFilter
+  MinSteps = 4
+  MaxSteps = 7
   RationalOnly = TRUE
   Twins = FALSE
   NeedDt = FALSE
